@@ -572,7 +572,8 @@ struct TemplateCore {
                         break;
                     }
 
-                    if (match != 0) {
+                    if ((match != 0) && (end_offset != 0)) {
+                        // Only when the closing '}' was found (not when another tag such as '<else' came first).
                         MathTag *tag   = (storage->Insert(TagBit{})).MakeMathTag();
                         tag->Offset    = (offset - TagPatterns::MathPrefixLength);
                         tag->EndOffset = end_offset;
